@@ -1,7 +1,8 @@
 """Per-property check definitions: which model families are run and how their findings are attributed."""
 import json, os
 from . import common
-from .cgt import cgt_family, law_family, report_family, calendar_family, fx_family, dsl_family, combine, fam_list
+from .cli import cli_family
+from .cgt import cgt_family, law_family, report_family, calendar_family, fx_family, dsl_family, misc_family, combine, fam_list
 
 
 def c01(tier, seed):
@@ -29,11 +30,11 @@ def c05(tier, seed):
 
 
 def c06(tier, seed):
-    return combine(fam_list(tier, ['order_q', 'order_split_q'], ['order_t', 'two_t']), 'variant_comparisons',
+    return combine(fam_list(tier, ['order_q', 'order_split_q'], ['order_t', 'two_t']) + [cli_family(tier)], ['variant_comparisons', 'partitions'],
                    'every cell ledger of the family rendered in canonical order and as reversed / sells-first / '
                    'actions-first / two seeded shuffles / adjacent and separated half fills / lower-case tickers; '
                    'non-trivial = implementation-vs-implementation comparisons of a variant with the canonical rendering',
-                   assumptions=['file partitions are exercised by the CLI check (C15/C06 cli family)'])
+                   assumptions=['file partitions (1..3 files, any assignment of 5 lines, with/without final line ending) are run through the cgt-tool binary'])
 
 
 def c09(tier, seed):
@@ -68,13 +69,13 @@ def reports(tier, quick, thorough):
 
 
 def c04(tier, seed):
-    return combine(reports(tier, ['report_q', 'report_missing_q'], ['report_t', 'report_one_t']), ['reports', 'missing_exemption_refused'],
+    return combine(reports(tier, ['report_q', 'report_missing_q'], ['report_t', 'report_one_t']) + [cli_family(tier)], ['reports', 'missing_exemption_refused', 'layering_configs'],
                    'two-security cell ledgers placed on real dates around 5/6 April with cash dividends and a small exemption '
                    'table (one family leaves a needed year unconfigured); TLC checks the report identities on the '
                    'specification and prints the per-year totals; the implementation\'s TaxReport must show the same '
                    'totals and satisfy the identities on its own figures; non-trivial = reports produced + runs refused '
                    'for a missing exemption',
-                   assumptions=['override-file layering (./config.toml, ~/.config) is exercised through the CLI by the C15/cli families'])
+                   assumptions=['override-file layering (embedded, ./config.toml, ~/.config/cgt-tool/config.toml) is specified in Report.tla (Layered) and exercised through the cgt-tool binary in 25 configurations'])
 
 
 def c07(tier, seed):
@@ -115,6 +116,15 @@ def c14(tier, seed):
                    assumptions=['exactness of rust_decimal Display/FromStr is observed, not modelled (decimals are opaque literals in the spec)'])
 
 
+def c15(tier, seed):
+    return combine([cli_family(tier), misc_family(), dsl_family('corrupt', 1)], ['failing_scenarios', 'invalid_classes', 'hostile_cases'],
+                   'every command / format / output-option combination of the Cli.tla step machine with every fault placement '
+                   '(missing input, bad rates folder, parse error, uncovered sale, missing exemption, missing rate, absurd year, '
+                   'unwritable output, pre-existing default PDF, bad export, RSU without awards) staged on disk and run through the '
+                   'real binary: exit status, emptiness of stdout, bytes of the target file before/after, completeness of the '
+                   'output; non-trivial = failing scenarios')
+
+
 def c11(tier, seed):
     return combine(fam_list(tier, ['events_q', 'events_split_q'], ['events_t', 'events_split_t']), 'with_events',
                    'cell ledgers with a capital return / accumulation cell at every position; TLC judges the observed '
@@ -123,7 +133,7 @@ def c11(tier, seed):
                    'non-trivial = ledgers with a cost event')
 
 
-PROPS = {'C13': c13, 'C14': c14, 'C08': c08, 'C04': c04, 'C07': c07, 'C01': c01, 'C02': c02, 'C03': c03, 'C05': c05, 'C06': c06, 'C09': c09, 'C10': c10, 'C11': c11, 'C12': c12}
+PROPS = {'C15': c15, 'C13': c13, 'C14': c14, 'C08': c08, 'C04': c04, 'C07': c07, 'C01': c01, 'C02': c02, 'C03': c03, 'C05': c05, 'C06': c06, 'C09': c09, 'C10': c10, 'C11': c11, 'C12': c12}
 
 
 def replay(prop, path):
